@@ -479,12 +479,18 @@ def run_seq_family(pid, tier, replay, make_histories, model=True, mc="SeqMC_%s.c
     if replay:
         return replay_one(pid, replay, rerun)
     histories = make_histories(rng, tier)
+    # leg A (single-threaded for most of its run) goes on in the background while the executions are recorded and validated
+    import concurrent.futures as _cf
+    bg = _cf.ThreadPoolExecutor(max_workers=1)
+    mfuture = bg.submit(seq_model_phase, pid, tier, mc) if model else None
     failures, counters, stats = vtrace.run_histories(pid, "drive_seq", "SeqTrace", histories, tlc_timeout=1500,
                                                      tlc_env={"SEQ_REFINE": "1" if model else "0"})
     if stats["infra"]:
         print("INFRA:", stats["infra"][0][:2000])
+        bg.shutdown(wait=False)
         return 3
-    mruns = seq_model_phase(pid, tier, mc) if model else []
+    mruns = mfuture.result() if mfuture else []
+    bg.shutdown()
     coverage = {
         "states": sum(r.distinct for r in mruns), "transitions": sum(r.generated for r in mruns),
         "traces_validated_against_impl": len(histories), "records_validated": stats["records"],
